@@ -256,7 +256,7 @@ def scan_stream(ctx, replay=None):
             if fn.endswith('.scan'):
                 corp += [l.rstrip('\n') for l in open(os.path.join(d, fn)) if l.strip() and not l.startswith('#')]
         if corp:
-            tmp = lib.VERIF + '/evidence/.corpus-C06-scan.txt'
+            tmp = os.environ.get('TMPDIR', '/var/tmp') + '/.corpus-C06-scan.txt'
             open(tmp, 'w').write('\n'.join(corp) + '\n')
             r, ok = ctx.run_gen(binary, ['-replay', tmp], timeout=3000, env=env)
             os.remove(tmp)
